@@ -9,34 +9,34 @@ ASAN = {"ASAN_OPTIONS": "detect_leaks=0:abort_on_error=1:symbolize=0"}
 PLANS = {
     "C01": {"quick": [seq("seq-mixed", 240000), seq("seq-inval", 120000), seq("seq-long", 3000), seq("seq-wide", 4000)],
             "thorough": [seq("seq-mixed", 3000000), seq("seq-inval", 1500000), seq("seq-expiry", 800000), seq("seq-long", 60000), seq("seq-wide", 60000)]},
-    "C03": {"quick": [seq("seq-mixed", 240000), seq("seq-expiry", 120000), seq("seq-inval", 80000), seq("seq-long", 3000), seq("thr-mixed", 60000), seq("thr-strict", 40000), seq("seq-wide", 4000), seq("thr-warm", 40000), seq("thr-iter-mixed", 20000), seq("thr-inval", 20000)],
-            "thorough": [seq("seq-mixed", 3000000), seq("seq-expiry", 1500000), seq("seq-inval", 1000000), seq("seq-long", 60000), seq("thr-mixed", 900000), seq("thr-strict", 600000), seq("seq-wide", 60000), seq("thr-warm", 600000), seq("thr-iter-mixed", 300000), seq("thr-inval", 300000)]},
-    "C04": {"quick": [seq("seq-mixed", 240000), seq("seq-policy", 120000), seq("seq-long", 3000), seq("thr-mixed", 40000), seq("burst", 3000), seq("thr-warm", 30000), seq("seq-huge", 40000)],
-            "thorough": [seq("seq-mixed", 3000000), seq("seq-policy", 1500000), seq("seq-long", 60000), seq("thr-mixed", 600000), seq("burst", 50000), seq("thr-warm", 450000), seq("seq-huge", 600000)]},
+    "C03": {"quick": [seq("seq-mixed", 240000), seq("seq-expiry", 120000), seq("seq-inval", 80000), seq("seq-long", 3000), seq("thr-mixed", 60000), seq("thr-strict", 40000), seq("seq-wide", 4000), seq("thr-warm", 40000), seq("thr-iter-mixed", 20000), seq("thr-inval", 20000), seq("thr-long", 15000)],
+            "thorough": [seq("seq-mixed", 3000000), seq("seq-expiry", 1500000), seq("seq-inval", 1000000), seq("seq-long", 60000), seq("thr-mixed", 900000), seq("thr-strict", 600000), seq("seq-wide", 60000), seq("thr-warm", 600000), seq("thr-iter-mixed", 300000), seq("thr-inval", 300000), seq("thr-long", 225000)]},
+    "C04": {"quick": [seq("seq-mixed", 240000), seq("seq-policy", 120000), seq("seq-long", 3000), seq("thr-mixed", 40000), seq("burst", 3000), seq("thr-warm", 30000), seq("seq-huge", 40000), seq("thr-long", 10000)],
+            "thorough": [seq("seq-mixed", 3000000), seq("seq-policy", 1500000), seq("seq-long", 60000), seq("thr-mixed", 600000), seq("burst", 50000), seq("thr-warm", 450000), seq("seq-huge", 600000), seq("thr-long", 150000)]},
     "C05": {"quick": [seq("seq-expiry", 300000), seq("seq-mixed", 100000), seq("thr-expiry", 60000), seq("seq-wide", 4000), seq("thr-iter-mixed", 40000), seq("thr-warm", 20000)],
             "thorough": [seq("seq-expiry", 4000000), seq("seq-mixed", 1000000), seq("seq-long", 30000), seq("thr-expiry", 900000), seq("seq-wide", 60000), seq("thr-iter-mixed", 600000), seq("thr-warm", 300000)]},
     "C06": {"quick": [seq("seq-expiry", 300000), seq("seq-mixed", 100000), seq("thr-expiry", 60000), seq("seq-wide", 4000), seq("thr-iter-mixed", 40000), seq("thr-warm", 20000)],
             "thorough": [seq("seq-expiry", 4000000), seq("seq-mixed", 1000000), seq("seq-long", 30000), seq("thr-expiry", 900000), seq("seq-wide", 60000), seq("thr-iter-mixed", 600000), seq("thr-warm", 300000)]},
-    "C07": {"quick": [seq("seq-inval", 300000), seq("seq-mixed", 100000), seq("thr-mixed", 80000), seq("thr-warm", 40000), seq("thr-iter-mixed", 30000), seq("thr-inval", 60000)],
-            "thorough": [seq("seq-inval", 4000000), seq("seq-mixed", 1000000), seq("seq-long", 30000), seq("thr-mixed", 1200000), seq("thr-warm", 600000), seq("thr-iter-mixed", 450000), seq("thr-inval", 900000)]},
-    "C10": {"quick": [seq("seq-mixed", 240000), seq("seq-inval", 100000), seq("seq-expiry", 60000), seq("seq-long", 3000), seq("thr-mixed", 60000), seq("seq-wide", 4000), seq("thr-warm", 40000), seq("thr-inval", 20000), seq("seq-huge", 40000), seq("burst", 1500)],
-            "thorough": [seq("seq-mixed", 3000000), seq("seq-inval", 1000000), seq("seq-expiry", 1000000), seq("seq-long", 60000), seq("thr-mixed", 900000), seq("burst", 20000), seq("seq-wide", 60000), seq("thr-warm", 600000), seq("thr-inval", 300000), seq("seq-huge", 600000)]},
-    "C11": {"quick": [seq("seq-mixed", 240000), seq("seq-inval", 100000), seq("seq-callback", 60000), seq("seq-long", 3000), seq("thr-mixed", 60000), seq("seq-wide", 3000), seq("thr-callback", 30000), seq("thr-warm", 40000), seq("thr-inval", 20000), seq("burst", 1500)],
-            "thorough": [seq("seq-mixed", 3000000), seq("seq-inval", 1000000), seq("seq-callback", 600000), seq("seq-long", 60000), seq("thr-mixed", 900000), seq("burst", 20000), seq("seq-wide", 40000), seq("thr-callback", 400000), seq("thr-warm", 600000), seq("thr-inval", 300000)]},
-    "C12": {"quick": [seq("seq-policy", 400000), seq("seq-mixed", 100000), seq("thr-warm", 80000), seq("thr-mixed", 60000), seq("thr-expiry", 30000), seq("thr-iter-mixed", 30000)],
-            "thorough": [seq("seq-policy", 6000000), seq("seq-mixed", 1500000), seq("seq-long", 30000), seq("thr-warm", 600000), seq("thr-mixed", 600000), seq("thr-expiry", 300000), seq("thr-iter-mixed", 300000)]},
+    "C07": {"quick": [seq("seq-inval", 300000), seq("seq-mixed", 100000), seq("thr-mixed", 80000), seq("thr-warm", 40000), seq("thr-iter-mixed", 30000), seq("thr-inval", 60000), seq("thr-long", 10000)],
+            "thorough": [seq("seq-inval", 4000000), seq("seq-mixed", 1000000), seq("seq-long", 30000), seq("thr-mixed", 1200000), seq("thr-warm", 600000), seq("thr-iter-mixed", 450000), seq("thr-inval", 900000), seq("thr-long", 150000)]},
+    "C10": {"quick": [seq("seq-mixed", 240000), seq("seq-inval", 100000), seq("seq-expiry", 60000), seq("seq-long", 3000), seq("thr-mixed", 60000), seq("seq-wide", 4000), seq("thr-warm", 40000), seq("thr-inval", 20000), seq("seq-huge", 40000), seq("burst", 1500), seq("thr-long", 10000)],
+            "thorough": [seq("seq-mixed", 3000000), seq("seq-inval", 1000000), seq("seq-expiry", 1000000), seq("seq-long", 60000), seq("thr-mixed", 900000), seq("burst", 20000), seq("seq-wide", 60000), seq("thr-warm", 600000), seq("thr-inval", 300000), seq("seq-huge", 600000), seq("thr-long", 150000)]},
+    "C11": {"quick": [seq("seq-mixed", 240000), seq("seq-inval", 100000), seq("seq-callback", 60000), seq("seq-long", 3000), seq("thr-mixed", 60000), seq("seq-wide", 3000), seq("thr-callback", 30000), seq("thr-warm", 40000), seq("thr-inval", 20000), seq("burst", 1500), seq("thr-long", 10000)],
+            "thorough": [seq("seq-mixed", 3000000), seq("seq-inval", 1000000), seq("seq-callback", 600000), seq("seq-long", 60000), seq("thr-mixed", 900000), seq("burst", 20000), seq("seq-wide", 40000), seq("thr-callback", 400000), seq("thr-warm", 600000), seq("thr-inval", 300000), seq("thr-long", 150000)]},
+    "C12": {"quick": [seq("seq-policy", 400000), seq("seq-mixed", 100000), seq("thr-warm", 80000), seq("thr-mixed", 60000), seq("thr-expiry", 30000), seq("thr-iter-mixed", 30000), seq("thr-long", 15000)],
+            "thorough": [seq("seq-policy", 6000000), seq("seq-mixed", 1500000), seq("seq-long", 30000), seq("thr-warm", 600000), seq("thr-mixed", 600000), seq("thr-expiry", 300000), seq("thr-iter-mixed", 300000), seq("thr-long", 225000)]},
     "C13": {"quick": [seq("seq-policy", 400000)],
             "thorough": [seq("seq-policy", 6000000)]},
     "C15": {"quick": [seq("pair", 300000)],
             "thorough": [seq("pair", 4000000)]},
     "C16": {"quick": [seq("seq-mixed", 240000), seq("seq-expiry", 100000), seq("thr-iter", 100000), seq("thr-mixed", 40000), seq("seq-wide", 4000), seq("thr-iter-mixed", 80000), seq("thr-warm", 20000)],
             "thorough": [seq("seq-mixed", 3000000), seq("seq-expiry", 1000000), seq("thr-iter", 1500000), seq("thr-mixed", 600000), seq("seq-wide", 60000), seq("thr-iter-mixed", 1200000), seq("thr-warm", 300000)]},
-    "C02": {"quick": [seq("thr-mixed", 160000), seq("thr-strict", 80000), seq("thr-expiry", 40000), seq("thr-sweep", 57600), seq("thr-warm", 60000), seq("thr-iter-mixed", 40000), seq("thr-inval", 60000)],
-            "thorough": [seq("thr-mixed", 2400000), seq("thr-strict", 1200000), seq("thr-expiry", 600000), seq("thr-iter", 300000), seq("thr-sweep", 1152000), seq("thr-warm", 900000), seq("thr-iter-mixed", 600000), seq("thr-inval", 900000)]},
-    "C09": {"quick": [seq("thr-mixed", 100000), seq("thr-iter", 30000), seq("burst", 5000), seq("seq-long", 4000), seq("thr-sweep", 19200), seq("thr-warm", 30000), seq("thr-iter-mixed", 30000), seq("thr-inval", 20000)],
-            "thorough": [seq("thr-mixed", 1500000), seq("thr-iter", 400000), seq("burst", 80000), seq("seq-long", 60000), seq("thr-sweep", 384000), seq("thr-warm", 450000), seq("thr-iter-mixed", 450000), seq("thr-inval", 300000)]},
-    "C08": {"quick": [seq("seq-mixed", 200000), seq("seq-long", 4000), seq("seq-callback", 60000), seq("seq-policy", 60000), seq("thr-mixed", 80000), seq("thr-iter", 30000), seq("burst", 2000), seq("seq-wide", 2000), seq("thr-callback", 40000), seq("thr-warm", 40000), seq("thr-iter-mixed", 30000), seq("thr-inval", 20000), seq("seq-huge", 40000)],
-            "thorough": [seq("seq-mixed", 2000000), seq("seq-long", 60000), seq("seq-callback", 600000), seq("seq-policy", 600000), seq("thr-mixed", 1200000), seq("thr-iter", 400000), seq("burst", 40000), seq("seq-wide", 30000), seq("seq-mixed", 300000, build="asan", env=ASAN), seq("seq-long", 20000, build="asan", env=ASAN), seq("seq-callback", 100000, build="asan", env=ASAN), seq("thr-mixed", 200000, build="asan", env=ASAN), seq("thr-iter", 60000, build="asan", env=ASAN), seq("burst", 4000, build="asan", env=ASAN), {"kind": "miri", "pop": "thr-mixed", "seed": 7, "from": 0, "to": 24, "miri_seeds": 16}, {"kind": "miri", "pop": "thr-iter", "seed": 7, "from": 0, "to": 8, "miri_seeds": 16}, {"kind": "miri", "pop": "thr-warm", "seed": 7, "from": 0, "to": 16, "miri_seeds": 16}, {"kind": "miri", "pop": "thr-inval", "seed": 7, "from": 0, "to": 12, "miri_seeds": 16}, {"kind": "miri", "pop": "thr-iter-mixed", "seed": 7, "from": 0, "to": 12, "miri_seeds": 16}, {"kind": "miri", "pop": "seq-mixed", "seed": 7, "from": 0, "to": 160, "miri_seeds": 1, "jobs": 8}, {"kind": "miri", "pop": "seq-policy", "seed": 7, "from": 0, "to": 96, "miri_seeds": 1, "jobs": 8}, {"kind": "miri", "pop": "seq-callback", "seed": 7, "from": 0, "to": 48, "miri_seeds": 1, "jobs": 8}, seq("thr-callback", 600000), seq("thr-callback", 100000, build="asan", env=ASAN), seq("thr-warm", 600000), seq("thr-iter-mixed", 450000), seq("thr-inval", 300000), seq("seq-huge", 600000)]},
+    "C02": {"quick": [seq("thr-mixed", 160000), seq("thr-strict", 80000), seq("thr-expiry", 40000), seq("thr-sweep", 57600), seq("thr-warm", 60000), seq("thr-iter-mixed", 40000), seq("thr-inval", 60000), seq("thr-long", 30000)],
+            "thorough": [seq("thr-mixed", 2400000), seq("thr-strict", 1200000), seq("thr-expiry", 600000), seq("thr-iter", 300000), seq("thr-sweep", 1152000), seq("thr-warm", 900000), seq("thr-iter-mixed", 600000), seq("thr-inval", 900000), seq("thr-long", 450000)]},
+    "C09": {"quick": [seq("thr-mixed", 100000), seq("thr-iter", 30000), seq("burst", 5000), seq("seq-long", 4000), seq("thr-sweep", 19200), seq("thr-warm", 30000), seq("thr-iter-mixed", 30000), seq("thr-inval", 20000), seq("thr-long", 15000)],
+            "thorough": [seq("thr-mixed", 1500000), seq("thr-iter", 400000), seq("burst", 80000), seq("seq-long", 60000), seq("thr-sweep", 384000), seq("thr-warm", 450000), seq("thr-iter-mixed", 450000), seq("thr-inval", 300000), seq("thr-long", 225000)]},
+    "C08": {"quick": [seq("seq-mixed", 200000), seq("seq-long", 4000), seq("seq-callback", 60000), seq("seq-policy", 60000), seq("thr-mixed", 80000), seq("thr-iter", 30000), seq("burst", 2000), seq("seq-wide", 2000), seq("thr-callback", 40000), seq("thr-warm", 40000), seq("thr-iter-mixed", 30000), seq("thr-inval", 20000), seq("seq-huge", 40000), seq("thr-long", 15000)],
+            "thorough": [seq("seq-mixed", 2000000), seq("seq-long", 60000), seq("seq-callback", 600000), seq("seq-policy", 600000), seq("thr-mixed", 1200000), seq("thr-iter", 400000), seq("burst", 40000), seq("seq-wide", 30000), seq("seq-mixed", 300000, build="asan", env=ASAN), seq("seq-long", 20000, build="asan", env=ASAN), seq("seq-callback", 100000, build="asan", env=ASAN), seq("thr-mixed", 200000, build="asan", env=ASAN), seq("thr-iter", 60000, build="asan", env=ASAN), seq("burst", 4000, build="asan", env=ASAN), {"kind": "miri", "pop": "thr-mixed", "seed": 7, "from": 0, "to": 24, "miri_seeds": 16}, {"kind": "miri", "pop": "thr-iter", "seed": 7, "from": 0, "to": 8, "miri_seeds": 16}, {"kind": "miri", "pop": "thr-warm", "seed": 7, "from": 0, "to": 16, "miri_seeds": 16}, {"kind": "miri", "pop": "thr-inval", "seed": 7, "from": 0, "to": 12, "miri_seeds": 16}, {"kind": "miri", "pop": "thr-iter-mixed", "seed": 7, "from": 0, "to": 12, "miri_seeds": 16}, {"kind": "miri", "pop": "seq-mixed", "seed": 7, "from": 0, "to": 160, "miri_seeds": 1, "jobs": 8}, {"kind": "miri", "pop": "seq-policy", "seed": 7, "from": 0, "to": 96, "miri_seeds": 1, "jobs": 8}, {"kind": "miri", "pop": "seq-callback", "seed": 7, "from": 0, "to": 48, "miri_seeds": 1, "jobs": 8}, seq("thr-callback", 600000), seq("thr-callback", 100000, build="asan", env=ASAN), seq("thr-warm", 600000), seq("thr-iter-mixed", 450000), seq("thr-inval", 300000), seq("seq-huge", 600000), seq("thr-long", 225000)]},
 }
 
 RULES = {
@@ -60,4 +60,4 @@ RULES = {
 ALL_PROBES = ["admit.victim_skipped", "admit.victim_vanished", "evict.skip_dirty", "evict.skip_missing",
               "write.channel_full", "read.dropped", "hk.lost", "hk.synced", "sync.repeat"]
 
-DETERMINISM_POPS = ["seq-huge", "thr-inval", "thr-warm", "thr-iter-mixed", "thr-callback", "thr-sweep", "seq-wide", "thr-mixed", "thr-strict", "thr-iter", "thr-expiry", "burst", "seq-mixed", "seq-expiry", "seq-policy", "seq-inval", "seq-callback", "pair", "seq-long"]
+DETERMINISM_POPS = ["thr-long", "seq-huge", "thr-inval", "thr-warm", "thr-iter-mixed", "thr-callback", "thr-sweep", "seq-wide", "thr-mixed", "thr-strict", "thr-iter", "thr-expiry", "burst", "seq-mixed", "seq-expiry", "seq-policy", "seq-inval", "seq-callback", "pair", "seq-long"]
